@@ -23,7 +23,8 @@ PALETTE = {
     "W": [("7u8", "W::from(7u8)"), ("5", "W::from(5i32)"), ('"s"', 'W::from("s")'), ("true", "W::from(true)"),
           ("'c'", "W::from('c')"), ("1.5", "W::from(1.5f64)"), ("W(String::new())", "W(String::new())"), ('b"ab"', 'W::from(b"ab")')],
     # reachable from a literal through a hand-written `Into` only (no `From`): the conversion the documentation promises is `Into`
-    "WI": [("5", "<i32 as Into<WI>>::into(5)"), ('"s"', '<&str as Into<WI>>::into("s")'), ("WI(String::new())", "WI(String::new())")],
+    # (literals other than W's: the end-to-end tie looks converted values up by the text of the expression)
+    "WI": [("6", "<i32 as Into<WI>>::into(6)"), ('"t"', '<&str as Into<WI>>::into("t")'), ("WI(String::new())", "WI(String::new())")],
     "L": [("L(2)", "L(2)")],
     "&'static [u8; 2]": [('b"ab"', 'b"ab"')],
 }
